@@ -21,7 +21,7 @@ from fractions import Fraction
 
 import numpy as np
 
-from .. import core, embed, geomheap, lat, tlaval
+from .. import core, embed, fld, geomheap, lat, tlaval
 from ..core import Part
 
 META = dict(
@@ -166,7 +166,9 @@ def build_mesh(df, m, subs, emb):
         p1 = [int(hi[d] if flip[d] else m["lo"][d]) for d in range(nd)]
         p2 = [int(m["lo"][d] if flip[d] else hi[d]) for d in range(nd)]
         sr = {s["name"]: df.Region(p1=[int(v) for v in s["box"]["lo"]], p2=[int(v) for v in s["box"]["hi"]]) for s in subs}
-        return df.Mesh(region=df.Region(p1=p1, p2=p2, dims=names), n=tuple(m["n"]), subregions=sr or None), names
+        mesh = df.Mesh(region=df.Region(p1=p1, p2=p2, dims=names), n=tuple(m["n"]), subregions=sr or None)
+        fld.disown(sr)
+        return mesh, names
     return lat.mesh_of(df, m, emb, dims=names, flip=lat.flip_for(m), subregions=sub_regions(df, subs, emb) or None), names
 
 
